@@ -24,6 +24,11 @@
 //        operation: a counting Notifiable is subscribed at EVERY position of the output
 //   dump <t>                  -> "o: <pos>... | i0: <pos>... | i1: unbound"
 //        <pos> = <path>=<valid><modified>/<lmt>/<value or ->     positions in pre-order
+//   val <t>                   -> "o: <cpos>... | i0: <cpos>... | i1: unbound"     the VALUE surface of every container
+//        <cpos> = <path>=<pattern>   for every CONTAINER position in pre-order; <pattern> renders position.value()
+//        like a <spec>: "_" for a field without a value (ValueView::has_value() false), the integer of a leaf, "(...)"
+//        for a bundle / list.  (A bundle value marks a field as set when the child is first stamped and never unsets
+//        it; a native fixed-size list value is dense: never written Int elements read 0.)
 //   <path> = "." (root) or child indices joined by "." ("1.0")
 // Errors: "err:invalid-arg" | "err:logic" | "err:range" | "err:other", followed by the <notes> of the positions notified
 // before the error (only a whole-value write can fail half-way: "fixed TSData child reported a duplicate modification"
@@ -279,6 +284,31 @@ namespace
         }
     }
 
+    std::string pattern_of(const ValueView &value, const Shape &shape)
+    {
+        if (!value.has_value()) { return "_"; }
+        if (shape.leaf) { return std::to_string(value.checked_as<Int>()); }
+        std::string out = "(";
+        const auto  indexed = value.as_indexed_view();
+        for (std::size_t k = 0; k < shape.kids.size(); ++k)
+        {
+            if (k > 0) { out += ","; }
+            out += k < indexed.size() ? pattern_of(indexed.at(k), shape.kids[k]) : std::string{"?"};
+        }
+        return out + ")";
+    }
+
+    template <typename View>
+    void value_view(const View &view, const Shape &shape, const std::string &path, std::string &out)
+    {
+        if (shape.leaf) { return; }
+        out += " " + (path.empty() ? std::string{"."} : path) + "=" + pattern_of(view.value(), shape);
+        for (std::size_t k = 0; k < shape.kids.size(); ++k)
+        {
+            value_view(view.indexed_child_at(k), shape.kids[k], path.empty() ? std::to_string(k) : path + "." + std::to_string(k), out);
+        }
+    }
+
     struct Counter final : Notifiable
     {
         int  count{0};
@@ -430,6 +460,19 @@ int main()
                     out += " | i" + std::to_string(i) + ":";
                     if (!world->bound[i]) { out += " unbound"; continue; }
                     dump_view(world->inputs[i]->view(nullptr, t), world->shape, "", out);
+                }
+                std::cout << out << "\n";
+            }
+            else if (op == "val" && w.size() == 2 && world)
+            {
+                const auto  t   = dt(nat(w[1]));
+                std::string out = "o:";
+                value_view(world->output->view(t), world->shape, "", out);
+                for (std::size_t i = 0; i < world->inputs.size(); ++i)
+                {
+                    out += " | i" + std::to_string(i) + ":";
+                    if (!world->bound[i]) { out += " unbound"; continue; }
+                    value_view(world->inputs[i]->view(nullptr, t), world->shape, "", out);
                 }
                 std::cout << out << "\n";
             }
